@@ -108,6 +108,22 @@ class Driver:
 
     def fresh(self, state):
         c = self.make(state["c"])
+        # ... and as if the cache had a past: it has been filled beyond its capacity (evictions) and emptied again by every
+        # removing method, so the ring's anchor and recycled links are not those of a brand-new object
+        self.nfresh = getattr(self, "nfresh", 0) + 1
+        if self.nfresh % 2 == 0:
+            junk = [("junk", i) for i in range(state["c"]["m"] + 2)]
+            for j_ in junk:
+                c[j_] = 0
+            for n_j, j_ in enumerate([k_ for k_ in junk if dict.__contains__(c, k_)]):
+                if n_j % 3 == 0:
+                    del c[j_]
+                elif n_j % 3 == 1:
+                    c.pop(j_)
+                else:
+                    c.popitem()
+            if len(c):
+                c.clear()
         # as if earlier lookups had happened: counters are judged as deltas, and a method
         # that resets or recomputes them must be visible from any starting point
         c.hit_count, c.miss_count, c.soft_miss_count = 3, 2, 1
@@ -203,7 +219,8 @@ class Driver:
                 del c[K(op["k"])]
                 v = []
             elif n == "pop":
-                v = [dv(c.pop(K(op["k"])))] if op["d"] == -1 else [dv(c.pop(K(op["k"]), V(op["d"])))]
+                self.npop = getattr(self, "npop", 0) + 1
+                v = [dv(c.pop(K(op["k"])))] if op["d"] == -1 else [dv(c.pop(K(op["k"]), V(op["d"])) if self.npop % 2 else c.pop(K(op["k"]), default=V(op["d"])))]
             elif n == "popitem":
                 k, val = c.popitem()
                 v = [dk(k), dv(val)]
@@ -306,7 +323,31 @@ class Driver:
             for k, v in same.items():
                 other[k] = v
             guard("eq_same_" + cls.__name__, lambda: (c == other, c != other, other == c))
+        # caches that differ: another value under one key, one key renamed (same length)
+        if same:
+            for cls in (self.cu.LRI, self.cu.LRU):
+                for label, chg in (("diffval", lambda d_: d_.__setitem__(k0, "another value")),
+                                   ("renamed", lambda d_: (d_.pop(k0), d_.__setitem__(K(NKEYS - 1), same[k0])))):
+                    other = cls(max_size=len(same) + 1)
+                    d_ = dict(same)
+                    chg(d_)
+                    for k, v in d_.items():
+                        other[k] = v
+                    r_ = (c == other, c != other, other == c, other != c)
+                    if r_ != (False, True, False, True):
+                        o["eq_same_" + cls.__name__] = "unequal-%s-cache:%r" % (label, r_)
         guard("eq_self", lambda: (c == c, c != c))
+        # the value a lookup returns is the value the views show (lookups of an LRI change nothing but counters; for an LRU
+        # they are made on a copy)
+        def lookups():
+            tgt = c if not isinstance(c, self.cu.LRU) else c.copy()
+            h0 = (c.hit_count, c.miss_count, c.soft_miss_count)
+            vals = sorted([dk(k), dv(tgt[k])] for k in list(dict.keys(tgt)))
+            vals_get = sorted([dk(k), dv(tgt.get(k, "no"))] for k in list(dict.keys(tgt)))
+            if tgt is c:
+                c.hit_count, c.miss_count, c.soft_miss_count = h0
+            return vals if vals == vals_get else "getitem/get disagree"
+        guard("items_by_lookup", lookups)
         guard("eq_unsized", lambda: (c == None, c != None, c == 5, c != 5))      # noqa: E711 - the comparison itself is the test
         guard("eq_pairs_list", lambda: (c == list(dict.items(c)), c != list(dict.items(c))) if len(c) else (False, True))
         after = (c.hit_count, c.miss_count, c.soft_miss_count)
@@ -369,7 +410,7 @@ class Driver:
     def compare(self, o, pobs, st):
         items = sorted([list(x) for x in pobs["items"]])
         keys = sorted(pobs["keys"])
-        exp = {"len": pobs["len"], "iter": keys, "keys": keys, "items": items, "dict": items,
+        exp = {"len": pobs["len"], "iter": keys, "keys": keys, "items": items, "dict": items, "items_by_lookup": items,
                "values": sorted(v for _, v in items), "in": keys, "repr": True,
                "eq_same_dict": (True, False), "eq_same_dict_r": (True, False),
                "eq_diffval_dict": (False, True), "eq_shorter_dict": (False, True),
